@@ -87,7 +87,10 @@ def redraw_numeric(rng: random.Random, g: dict) -> dict:
 
 
 def make_draw(rng: random.Random, groups: list[dict], dtype="float64", pdtype="float64") -> dict:
-    return {"dtype": dtype, "pdtype": pdtype, "seed": rng.randrange(1 << 30), "groups": groups}
+    d = {"dtype": dtype, "pdtype": pdtype, "seed": rng.randrange(1 << 30), "groups": groups}
+    if rng.random() < 0.2:
+        d["grad_mode"], d["sparse_steps"] = "sparse_first", rng.choice([1, 2, 3])
+    return d
 
 
 def hyper_moves(groups: list[dict], keys=("mom", "b1", "wd", "lr")) -> list[tuple]:
